@@ -1490,6 +1490,11 @@ class AggregateFunction(Function):
         self._include_filter = True
         self._filters = [*self._filters, *filters]
 
+    @builder
+    def replace_table(self, current_table: Optional["Table"], new_table: Optional["Table"]) -> "AggregateFunction":
+        self.args = [param.replace_table(current_table, new_table) for param in self.args]
+        self._filters = [f.replace_table(current_table, new_table) for f in self._filters]
+
     def get_filter_sql(self, **kwargs: Any) -> str:
         if self._include_filter:
             return "WHERE {criterions}".format(criterions=Criterion.all(self._filters).get_sql(**kwargs))
@@ -1525,6 +1530,15 @@ class AnalyticFunction(AggregateFunction):
     def orderby(self, *terms: Any, **kwargs: Any) -> "AnalyticFunction":
         self._include_over = True
         self._orderbys = self._orderbys + [(term, kwargs.get("order")) for term in terms]
+
+    @builder
+    def replace_table(self, current_table: Optional["Table"], new_table: Optional["Table"]) -> "AnalyticFunction":
+        self.args = [param.replace_table(current_table, new_table) for param in self.args]
+        self._filters = [f.replace_table(current_table, new_table) for f in self._filters]
+        self._partition = [
+            p.replace_table(current_table, new_table) if hasattr(p, "replace_table") else p for p in self._partition
+        ]
+        self._orderbys = [(f.replace_table(current_table, new_table), orient) for f, orient in self._orderbys]
 
     def _orderby_field(self, field: Field, orient: Optional[Order], **kwargs: Any) -> str:
         if orient is None:
